@@ -176,10 +176,44 @@ func ruleReaderSegment(c *eng.Ctx) {
 		ok := false
 		for _, fs := range eng.CallsIn(fn, cl+"findSegment") {
 			a := fs.Common().Args[1]
-			if eng.Bin(token.ADD, eng.Load(hwF, nil), eng.IntConst(1))(a) {
+			next := eng.Bin(token.ADD, eng.Load(hwF, nil), eng.IntConst(1))
+			// the resume point is old watermark + 1, or the offset the reader was created for when that lies further on
+			// (a start offset above the watermark but inside the log): max(hw+1, start), start taken only on start > hw+1
+			resume := func(v ssa.Value) bool {
+				if next(v) {
+					return true
+				}
+				ph, isPhi := v.(*ssa.Phi)
+				if !isPhi {
+					return false
+				}
+				hasNext, okEdges := false, true
+				for _, e := range ph.Edges {
+					switch {
+					case next(e):
+						hasNext = true
+					case eng.LoadNamed("start", nil)(e):
+					default:
+						okEdges = false
+					}
+				}
+				further := eng.CmpEdges(fn, eng.LoadNamed("start", nil), next, eng.GT)
+				return hasNext && okEdges && len(further) > 0
+			}
+			if resume(a) {
 				// computed before r.hw is overwritten: no store to r.hw precedes the addition in its block path
 				ok = true
-				if bo, isB := eng.Strip(a).(*ssa.BinOp); isB {
+				var bo *ssa.BinOp
+				if b, isB := eng.Strip(a).(*ssa.BinOp); isB {
+					bo = b
+				} else if ph, isPhi := a.(*ssa.Phi); isPhi {
+					for _, e := range ph.Edges {
+						if b, isB := eng.Strip(e).(*ssa.BinOp); isB {
+							bo = b
+						}
+					}
+				}
+				if isB := bo != nil; isB {
 					for _, st := range eng.FieldStores(fn, func(fa *ssa.FieldAddr) bool { return fieldIs(fa, hwF) }) {
 						q := &eng.PathQuery{Fn: fn, FromAfter: []ssa.Instruction{st}, Target: func(x ssa.Instruction) bool { return x == ssa.Instruction(bo) }}
 						if q.Find() != nil {
